@@ -645,12 +645,18 @@ func ruleConstIndex(rule string, reviewed map[string]string) func(*Ctx) {
 			for _, p := range order {
 				a := per[p]
 				n++
-				key := fmt.Sprintf("%s:%s:%s", rule, fn, p.Name())
+				pk := -1
+				for i, q := range f.Params {
+					if q == p {
+						pk = i
+					}
+				}
+				key := fmt.Sprintf("%s:%s:param#%d", rule, fn, pk) // by position: renaming a parameter changes nothing
 				if a.need == 0 {
 					c.pass(rule, key, a.pos, fn, fmt.Sprintf("%d constant-index reads of %s, each dominated by a guard on len(%s)", a.sites, p.Name(), p.Name()))
 					continue
 				}
-				if r, ok := reviewed[fn+":"+p.Name()]; ok {
+				if r, ok := reviewed[fmt.Sprintf("%s:param#%d", fn, pk)]; ok {
 					c.add(Ob{Rule: rule, Key: key, Pos: c.pos(a.pos), Func: fn, Status: Pass, Detail: "reviewed by hand (this one parameter): " + r})
 					continue
 				}
